@@ -246,7 +246,7 @@ def r2_2(model: Model, rep: Report) -> None:
     if len(pid_) != 1 or len(pidc) != 1 or others:
         problems.append("the wrapper does not return exactly identify(...) or idc(...) of the query")
     else:
-        g1 = f_and(*[sa2.cond(c) for c in pid_[0].conds])
+        g1 = f_and(*[sa2.cond(c) for c in pid_[0].conds if not (c[0] == "not" and c[1][0] == "raised-in")])
         if not (compare(g1, isnone)[0] or compare(g1, f_or(isnone, empty))[0] or compare(g1, empty)[0]):
             problems.append("routing: ID is not used exactly when no conditions are given (and IDC otherwise)")
         for p in (pid_[0], pidc[0]):
